@@ -34,12 +34,20 @@ func TestMain(m *testing.M) {
 	for _, it := range pool {
 		byName[it.Name] = it
 	}
-	var err error
-	if worker, err = StartWorker(); err != nil {
-		fmt.Println("harness: cannot start decode worker:", err)
-		os.Exit(2)
+	fuzzing := false
+	for _, a := range os.Args {
+		if len(a) >= 10 && a[:10] == "-test.fuzz" {
+			fuzzing = true // FuzzDecode decodes in-process; no decode worker needed
+		}
 	}
-	defer worker.Kill()
+	if !fuzzing {
+		var err error
+		if worker, err = StartWorker(); err != nil {
+			fmt.Println("harness: cannot start decode worker:", err)
+			os.Exit(2)
+		}
+		defer worker.Kill()
+	}
 	core.Main(m, ID)
 }
 
